@@ -94,13 +94,13 @@ CHECKS = {
         note=NOTE_COMMON + "Partial: write=spec and decode(encode g)=g are theorems for the non-recursive types (Point, LineString, Polygon); multi types and collections (recursion through Push) are decided per explored input.",
     ),
     "C04": dict(
-        technique="Lean 4 theorems about the reader model (totality by induction on fuel with a no-panic predicate; limit check before allocation; allocation bound; well-formedness invariant of the ring loop) + differential correspondence on mutated encodings with measured allocation",
+        technique="Lean 4 theorems about the reader model (totality by induction on fuel with a no-panic predicate; limit check before allocation; allocation bound; well-formedness of every decoded value by a postcondition induction through the reader) + differential correspondence on mutated encodings with measured allocation",
         text="C04_total: for every byte string, format, mode, limit setting the decoder model never panics. C04_limit1/2_rejects: a count above its limit yields "
              "ErrGeometryTooLarge{level,n,limit} with the allocation counter untouched; C04_alloc_bound_coords1: with limit L a coordinate array reserves at "
-             "most 2*L*stride elements whatever the input claims; C04_lineString/polygon_wellFormed: every decoded LineString/Polygon is structurally well "
-             "formed. The real decoders are run on mutated encodings each run: outcome class and decoded structure are compared with the model, and the "
+             "most 2*L*stride elements whatever the input claims; C04_read_wellFormed / C04_unmarshal_wellFormed: every geometry the decoders return - all seven types, members of nested collections "
+             "included - is structurally well formed (Push keeps the accumulated end-offset chains valid: mpointPush_wf, g2Push_wf, g3Push_wf). The real decoders are run on mutated encodings each run: outcome class and decoded structure are compared with the model, and the "
              "oracle checks no panic, well-formedness, limits, canonical re-encoding and the measured allocation bound.",
-        note=NOTE_COMMON + "Partial: well-formedness/canonicity of decoded multi types and collections, and the real allocator, are decided per explored input.",
+        note=NOTE_COMMON + "Partial: canonical re-encoding of decoded multi types and collections, and the real allocator's behaviour, are decided per explored input.",
     ),
     "C20": dict(
         technique="Lean 4 theorems parametric in the distance function (index-list shape; the explicit-stack worker with fuel 2*size is proved to terminate having marked exactly the recursive split tree; threshold guarantee between consecutive retained points by induction over that tree) + bit-exact float correspondence + exact rational oracle",
